@@ -23,6 +23,12 @@ stays within the bound; switching at the end of a task is free.  bound=None
 explores all interleavings.  Every schedule within the bound is executed
 exactly once.
 
+The oracle's reference - what each task returns when it runs alone - is taken
+in pristine processes (`solo_baseline`, mc/pristine.py), one per task, before
+anything else has run, and shipped to the workers with their tasks; the
+processes that explore run thousands of executions, so module-level state is
+part of what is compared against that reference.
+
 Work is split over processes by the first-level choices: the parent runs the
 root execution, each child prefix is the root of a subtree explored by one
 worker process with its own threads, for at most a fixed number of executions
@@ -255,8 +261,9 @@ def with_call_points(fn, point, only=None):
 # A scenario is any object with
 #     name        str
 #     ntasks      int
-#     jobs()      -> list of callables job(point) -> observation (fresh objects
-#                    on every call: every execution starts from scratch)
+#     job(t)      -> callable job(point) -> observation of task t (fresh
+#                    objects on every call: every execution starts from scratch)
+#     jobs()      -> [job(t) for every task]
 _SCN = {}
 
 
@@ -273,20 +280,44 @@ def get_scenario(ref):
 def solo(scn):
     """Each task's observation and number of scheduling points when it runs
     alone (under the same instrumentation): [(observation, points), ...].
-    Every task is run alone twice; if the second run differs from the first
-    (instances influence each other even without interleaving) the pair is
-    kept in scn._solo_unstable for the check to report."""
+
+    The table is never computed here: `solo_baseline()` takes every entry in
+    its own pristine process before anything else has run (a module- or
+    class-level cache would otherwise be in the reference as well), and the
+    table travels to the workers with their tasks (`install_solo`)."""
     if scn._solo is None:
-        out = []
-        scn._solo_unstable = []
-        for t in range(scn.ntasks):
-            tr, res = scheduler().execute([scn.jobs()[t]])
-            tr2, res2 = scheduler().execute([scn.jobs()[t]])
-            if res != res2 or [d[1] for d in tr] != [d[1] for d in tr2]:
-                scn._solo_unstable.append((t, res[0], res2[0]))
-            out.append((res[0], len(tr) - 1))
-        scn._solo = out
+        raise RuntimeError(f"{scn.name}: no pristine solo baseline installed")
     return scn._solo
+
+
+def install_solo(ref, table):
+    scn = get_scenario(ref)
+    scn._solo = [tuple(x) for x in table]
+    return scn
+
+
+def _solo_work(task):
+    ref, t = task
+    scn = get_scenario(ref)
+    tr, res = scheduler().execute([scn.job(t)])
+    return (res[0], len(tr) - 1, [d[1] for d in tr])
+
+
+def solo_baseline(items):
+    """items: [(scenario ref, ntasks)].  Returns ({ref: [(obs, points), ...]},
+    unstable) where every task of every scenario ran alone in its own pristine
+    process, twice (two processes); unstable lists (ref, task, obs1, obs2) for
+    tasks on which the two pristine processes disagree."""
+    from . import pristine
+
+    jobs = [(ref, t) for ref, n in items for t in range(n)]
+    res = pristine.pristine_map(_solo_work, jobs)
+    tables, unstable = {}, []
+    for (ref, t), (a, b) in zip(jobs, res):
+        tables.setdefault(ref, []).append((a[0], a[1]))
+        if a != b:
+            unstable.append((ref, t, a[0], b[0]))
+    return tables, unstable
 
 
 def _digest_keys(trace, upto):
@@ -427,39 +458,87 @@ def explore_subtree(ref, bound, dev, pre, expect=None, digest=None, summ=None,
 
 
 def _subtree_work(task):
-    ref, bound, budget, piece = task
-    scn = get_scenario(ref)
+    ref, bound, budget, table, pieces = task
+    scn = install_solo(ref, table)
     summ = Summary(scn.ntasks)
-    dev, pre, digest = piece
-    _, rest = explore_subtree(ref, bound, dict(dev), pre, None, digest, summ, budget=budget)
+    rest = []
+    for dev, pre, digest in pieces:
+        _, r = explore_subtree(ref, bound, dict(dev), pre, None, digest, summ, budget=budget)
+        rest.extend(r)
     return summ, rest
 
 
-def explore(ref, bound, budget=400):
+NCHUNKS = 128  # pieces per round are grouped into at most this many tasks
+
+
+def explore(ref, bound, table, budget=400):
     """All schedules of the scenario with <= bound preemptions (None: all
     interleavings).  Returns a Summary.
 
-    The parent runs the root execution; its children (the first-level choices)
-    are the pieces of round 1.  In every round each piece is explored
+    `table` is the pristine solo baseline of the scenario (solo_baseline); it
+    is shipped with every task.  The parent runs the root execution; its
+    children (the first-level choices) are the pieces of round 1.  In every round each piece is explored
     depth-first by a worker process (with its own threads) for at most
     `budget` executions; what is left of its stack comes back as the pieces of
     the next round.  The budget is a count, so the partition - and therefore
     the set of executions - does not depend on timing."""
-    scn = get_scenario(ref)
-    solo(scn)
+    scn = install_solo(ref, table)
     summ = Summary(scn.ntasks)
     _, pieces = explore_subtree(ref, bound, {}, 0, summ=summ, budget=1)
     rounds = 0
     while pieces:
         rounds += 1
-        tasks = [(ref, bound, budget, p) for p in pieces]
+        per = -(-len(pieces) // NCHUNKS)
+        tasks = [(ref, bound, budget, table, pieces[i:i + per]) for i in range(0, len(pieces), per)]
         pieces = []
-        for s, rest in core.pmap(_subtree_work, tasks):
+        for s, rest in core.pmap(_subtree_work, tasks, chunksize=1):
             summ.merge(s)
             pieces.extend(rest)
     summ.rounds = rounds
     summ.fails.sort(key=lambda f: (f[1]["preemptions"], len(f[1]["schedule"]), f[1]["schedule"]))
     return summ
+
+
+def _confirm_work(task):
+    """In a pristine process: the prelude (tasks of other scenarios run alone,
+    one after the other), then one schedule.  Returns the tasks whose result
+    differs from the solo baseline."""
+    ref, table, dev, prelude = task
+    for r2, tab2, t2 in prelude:
+        scheduler().execute([install_solo(r2, tab2).job(t2)])
+    scn = install_solo(ref, table)
+    trace, results = scheduler().execute(scn.jobs(), {int(i): int(t) for i, t in dev})
+    return [t for t, r in enumerate(results) if r != scn._solo[t][0]]
+
+
+def confirm(fails, tables):
+    """The processes that explore run many executions, so a failure seen there
+    may owe something to what the process did earlier (module-level state).
+    For the smallest case of every signature look for a self-contained
+    reproduction in a pristine process: the schedule alone, else the schedule
+    after one task of one of the scenarios has run alone.  The case records
+    the prelude it needs, or self_contained: false."""
+    from . import pristine
+
+    cands = [[]] + [[(r2, tables[r2], t2)] for r2 in tables for t2 in range(len(tables[r2]))]
+    seen, out = set(), []
+    for sig, case, detail in fails:
+        if sig not in seen and "schedule" in case:
+            seen.add(sig)
+            ref = (case["scenario"][0], case["scenario"][1], tuple(case["scenario"][2]))
+            res = pristine.pristine_map(
+                _confirm_work, [(ref, tables[ref], case["schedule"], pre) for pre in cands], repeat=1)
+            case = dict(case, self_contained=False)
+            for pre, (bad,) in zip(cands, res):
+                if bad:
+                    case["prelude"] = [[list(r2), t2] for r2, _, t2 in pre]
+                    case["self_contained"] = True
+                    if pre:
+                        detail += (f" [needs process state: reproduced in a pristine process after task {pre[0][2]} "
+                                   f"of scenario {pre[0][0][2][0]!r} ran alone first]")
+                    break
+        out.append((sig, case, detail))
+    return out
 
 
 # ---------------------------------------------------------------------------
@@ -515,7 +594,11 @@ class _ToyScenario:
 
             return job
 
-        return [mk(0), mk(1)]
+        self._made = [mk(0), mk(1)]
+        return self._made
+
+    def job(self, t):
+        return self.jobs()[t]
 
 
 def toy_scenario(shared):
@@ -531,6 +614,13 @@ def selfcheck():
     deterministically."""
     priv = ("mc.sched", "toy_scenario", (0,))
     shar = ("mc.sched", "toy_scenario", (1,))
+    for r in (priv, shar):
+        # the toys run no pycparser code: their solo results may be taken here
+        sc = get_scenario(r)
+        sc._solo = []
+        for t in range(2):
+            tr, res = scheduler().execute([sc.job(t)])
+            sc._solo.append((res[0], len(tr) - 1))
     a = explore_subtree(priv, None, {}, 0)[0]
     b0 = explore_subtree(priv, 0, {}, 0)[0]
     b1 = explore_subtree(priv, 1, {}, 0)[0]
